@@ -56,6 +56,10 @@ theorem progs_wellLocked :
     (∀ p ∈ Generated.writerProgs, WellLocked p ∧ NoMutate p ∧ Committing p) := by
   decide
 
+/-- no handler enters a critical section with an acquire that can give up (timeout / non-blocking): the translator lists
+    every handler for which it saw such an acquire, and adds the path "the acquire gave up" to `readerProgs` -/
+theorem handlers_block_on_lock : Generated.timedAcquireProgs = [] := by decide
+
 /-- the four handlers by name (each request shape that was traced) -/
 theorem handlers_wellLocked :
     WellLocked Generated.prog_getMdib ∧
